@@ -205,19 +205,22 @@ var vScopeNames = [8]string{"sc0", "sc1", "sc2", "sc3", "sc4", "sc5", "sc6", "sc
 
 var vOpNames = [8]string{"op0", "op1", "op2", "op3", "op4", "op5", "op6", "op7"}
 
-// Any history of <= 7 operations over a stack of nested function contexts, as the translator uses them: 0 = allocate a local name,
+// Any history of <= 6 (thorough: 7) operations over a stack of nested function contexts, as the translator uses them: 0 = allocate a local name,
 // 1 = allocate a package-level name, 2 = enter a nested function (a context that copies its parent's table), 3 = leave it.  A newly
 // allocated name must differ from every name that can be visible at that point: every name allocated so far in the current
 // context and its ancestors, and every package-level name allocated anywhere.  It is never a reserved word, and local /
 // package-level names use disjoint alphabets.
-func VHarness_NewVariableHistories() {
+func VHarness_NewVariableHistories()         { vNewVariableHistories(6) }
+func VHarnessThorough_NewVariableHistories() { vNewVariableHistories(7) }
+
+func vNewVariableHistories(maxOps int) {
 	type scope struct {
 		fc    *funcContext
 		names []string
 	}
 	stack := []*scope{{fc: vNewRoot()}}
 	var pkgNames []string
-	k := VNondetInt("count", 1, 7)
+	k := VNondetInt("count", 1, maxOps)
 	for i := 0; i < k; i++ {
 		op := VNondetInt(vOpNames[i], 0, 3)
 		cur := stack[len(stack)-1]
